@@ -125,3 +125,85 @@ def h_document_sym(shape: int, which: int, t: str, v: str) -> bool:
     r = HTMLDocument(*content, **attrs).render(lib_prefix="lib", include_version=True)
     want_html, want_deps = spec_document(list(TagList(*content)), attrs, "lib", True)
     return r["html"] == want_html and len(r["dependencies"]) == 1 and r["dependencies"][0] == d
+
+
+class Delayed:
+    """an object that is not a Tag and yields its content (and any dependency in it) only through tagify()"""
+
+    def __init__(self, kind: int, dep):
+        self.kind, self.dep = kind, dep
+
+    def expansion(self):
+        if self.kind == 0:
+            return Tag("em", "late", self.dep, _add_ws=False)
+        if self.kind == 1:
+            return TagList(self.dep, "t<", Tag("u", _add_ws=False))
+        return self.dep
+
+    def tagify(self):
+        return self.expansion()
+
+
+class DelayedTag(Tag):
+    """a Tag subclass whose tagify() adds a dependency that the un-tagified object does not carry"""
+
+    def __init__(self, dep):
+        super().__init__("section", "sub")
+        self._dep = dep
+
+    def expansion(self):
+        return Tag("section", "sub", self._dep)
+
+    def tagify(self):
+        return self.expansion().tagify()
+
+
+def _late(kind: int, dep):
+    return DelayedTag(dep) if kind == 3 else Delayed(kind, dep)
+
+
+def _doc_tagifiable_body(shape: int, kind: int, p0: int, i1: int, p1: int, cfg: int) -> bool:
+    attrs, prefix, iv = _CFG[cfg]
+    attrs = attrs or {}
+    mk = lambda: HTMLDependency("late", "3.1", source={"subdir": "src/late"}, script={"src": "l.js"}, head="<!--late-->")     # noqa: E731
+    other = pool(i1)
+    obj = _late(kind, mk())
+    with_obj = build(shape, [obj, other], [p0, p1])
+    expanded = build(shape, [_late(kind, mk()).expansion(), other], [p0, p1])
+    docs = []
+    for content in (with_obj, expanded):
+        if shape == 7:
+            doc = HTMLDocument(**attrs)
+            doc.append(*content)
+        else:
+            doc = HTMLDocument(*content, **attrs)
+        docs.append(doc.render(lib_prefix=prefix, include_version=iv))
+    a, b = docs
+    # the document for the tree with the object == the document for the tree with its expansion written out (C09 + C11) ...
+    if a["html"] != b["html"] or len(a["dependencies"]) != len(b["dependencies"]):
+        return False
+    for g, w in zip(a["dependencies"], b["dependencies"]):
+        if not (g == w):
+            return False
+    # ... and that document is the one the statement prescribes: listing, hoisted markup and returned list agree
+    want_html, want_deps = spec_document(list(TagList(*expanded)), attrs, prefix, iv)
+    if a["html"] != want_html and norm_attr_order(a["html"]) != norm_attr_order(want_html):
+        return False
+    if [d.name for d in a["dependencies"]] != [d.name for d in want_deps]:
+        return False
+    h = a["html"]
+    return "late[3.1]" in h and h.count("<!--late-->") == 1 and h.index("<!--late-->") < h.index("</head>")
+
+
+@harness("C11", pre=lambda B, shape, kind, p0, i1, p1, cfg: 0 <= shape < N_SHAPE and 0 <= kind <= 3 and 0 <= p0 < N_POS and i1 in (0, 2, 4)
+         and 0 <= p1 < N_POS and cfg in (0, 1) and (i1 > 0 or p1 == 0),
+         shard={"shape": range(N_SHAPE), "kind": range(4)},
+         sel=["shape: the 10 content shapes of h_document", "kind: a non-Tag object whose tagify() returns a tag holding a dependency / a TagList starting with one / a bare dependency; "
+              "a Tag subclass whose tagify() adds one", "p0: where the object sits", "i1, p1: a second, ordinary dependency and its place", "cfg: 2 configurations"],
+         targets=["htmltools._core.HTMLDocument._gen_html_tag_tree", "htmltools._core.HTMLDocument._hoist_head_content", "htmltools._core.HTMLDocument.render",
+                  "htmltools._core.TagList.tagify"],
+         outside="objects whose tagify() result depends on how often it is called")
+def h_document_tagifiable(shape: int, kind: int, p0: int, i1: int, p1: int, cfg: int) -> bool:
+    """dependencies that exist only after tagify() are listed, hoisted once and returned like any other, for every document shape"""
+    return concrete(_doc_tagifiable_body, conc(shape, 0, N_SHAPE - 1), conc(kind, 0, 3), conc(p0, 0, N_POS - 1), conc(i1, 0, N_POOL - 1),
+                    conc(p1, 0, N_POS - 1), conc(cfg, 0, 1))
